@@ -118,7 +118,7 @@ fn genp(prop: &str, seed: u64, tier: &str) -> Plan {
         Op::CreateParticipant { p: 1, domain: 0, tag: String::new(), announce_ms: r.range(50, 1000), q: Q::default(), l: None },
         Op::CreateTopic { p: 1, id: 0, name: "T".into(), ty: Ty::Keyed, q: Q::default(), l: None },
         Op::CreateSubscriber { p: 1, id: 1, q: Q::default(), l: None },
-        Op::CreateReader { id: 0, subscriber: 1, topic: 0, q: rq.clone(), l: if matches!(prop, "C18" | "C19") { Some(L { mask: vec![6] }) } else { None } },
+        Op::CreateReader { id: 0, subscriber: 1, topic: 0, q: rq.clone(), l: if matches!(prop, "C18" | "C19") { Some(L { mask: vec![6], nil: false }) } else { None } },
     ];
     let mut writers = vec![];
     for w in 0..n_writers {
